@@ -15,3 +15,4 @@ import BacVerif.Props.C09
 #print axioms BacVerif.C09.unknown_function
 #print axioms BacVerif.C09.bvll_roundtrip
 #print axioms BacVerif.C09.ip_roundtrip
+#print axioms BacVerif.C09.bvll_refuses
